@@ -32,13 +32,16 @@ class EqualizedOddsEntries(NdContract):
         loops = [s for s in fn.body if isinstance(s, ast.For) and "_tradeoff_curve.keys()" in ast.unparse(s.iter)]
         if len(loops) != 1:
             raise Unsupported("the interpolation_dict loop was not found")
-        return loops
+        tail = [s for s in fn.body[fn.body.index(loops[0]) + 1:] if isinstance(s, ast.Return)]
+        return loops + tail[-1:]        # the loop and the final `return InterpolatedThresholder(...).fit(None, None)`
 
     def params(self, eng, st):
         self.XB, self.YB, self.IB = Real("x_best"), Real("y_best"), Int("i_best_EO")
         st.assume(M >= 1, 0 <= self.XB, self.XB <= 1, self.XB <= self.YB,
                   ForAll([k_], Implies(And(0 <= k_, k_ < M), And(self.YB <= YG(k_), YG(k_) <= 1)), patterns=[YG(k_)]))
-        st.env.update({"self": Obj("ThresholdOptimizer", {"_tradeoff_curve": Abstract("curvemap"), "_x_best": self.XB, "_y_best": self.YB}),
+        self.est, self.pm = Abstract("estimator_"), Abstract("predict_method")
+        st.env.update({"self": Obj("ThresholdOptimizer", {"_tradeoff_curve": Abstract("curvemap"), "_x_best": self.XB, "_y_best": self.YB, "estimator_": self.est,
+                                                          "_predict_method": self.pm}),
                        "i_best_EO": self.IB, "interpolation_dict": Abstract("idict")})
         st.ghost.update({"of": ConstArray(IntSort(), IntVal(-1)), "row": ConstArray(IntSort(), IntVal(-1)), "pi": ConstArray(IntSort(), z3.RealVal(-1)),
                          "pc": ConstArray(IntSort(), z3.RealVal(-1))})
@@ -50,6 +53,10 @@ class EqualizedOddsEntries(NdContract):
             return Abstract("curve_T", k=recv.k)
         if name in ("Bunch", "sklearn.utils.Bunch"):
             return Abstract("bunch", fields=dict(kwargs))
+        if name == "InterpolatedThresholder":
+            return Abstract("IT", args=list(args), kw=dict(kwargs))
+        if name == "fit" and isinstance(recv, Abstract) and recv.tag == "IT":
+            return recv
         return super().on_call(eng, st, node, name, recv, args, kwargs)
 
     def on_iter(self, eng, st, node, it):
@@ -128,4 +135,11 @@ class EqualizedOddsEntries(NdContract):
     def post(self, eng, st, status, value):
         if status != "return":
             return [("no_exception", BoolVal(False))]
-        return [("every_group_is_placed_on_the_same_FPR_TPR_point", self.entries_ok(st, M))]
+        out = [("every_group_is_placed_on_the_same_FPR_TPR_point", self.entries_ok(st, M))]
+        if isinstance(value, Abstract) and value.tag == "IT":
+            a = value.args
+            out += [("thresholder_gets_the_estimator_and_the_dictionary", BoolVal(len(a) >= 2 and a[0] is self.est and a[1] is st.env["interpolation_dict"] and value.kw.get("prefit") is True)),
+                    ("fitted_rule_scores_rows_with_the_predict_method_used_for_the_thresholds", BoolVal(value.kw.get("predict_method") is self.pm))]
+        else:
+            out.append(("returns_a_fitted_interpolated_thresholder", BoolVal(False)))
+        return out
